@@ -198,6 +198,7 @@ pub fn evaluate(spec: &Spec, completed: bool) -> Vec<Violation> {
             "c01_isolation" => data::c01_isolation(&mut cx),
             "c02_clean_handoff" => data::c02_clean_handoff(&mut cx),
             "c03_relay" => data::c03_relay(&mut cx),
+            "c03_flush" => data::c03_flush(&mut cx),
             "c04_bound" => control::c04_bound(&mut cx),
             "c04_capacity" => control::c04_capacity(&mut cx),
             // "staying usable" after a refusal: what a client sends and receives afterwards is still its own
